@@ -6,6 +6,7 @@ import (
 	"fmt"
 	"go/types"
 	"path/filepath"
+	"strings"
 	"time"
 )
 
@@ -229,6 +230,65 @@ func init() {
 		a[14] = uint8(n >> 8)
 		a[15] = uint8(n)
 		return tuple{a, iface{}}
+	})
+	// uuid.Parse (v1.3.0 semantics, concrete strings): canonical form, urn:uuid:
+	// prefix, braces, 32 raw hex digits; hex digits in either case
+	reg("github.com/google/uuid.Parse", func(i *interpreter, fr *frame, args []value) value {
+		s, ok := args[0].(string)
+		if !ok {
+			unsupportedf("uuid.Parse of a symbolic string")
+		}
+		zero := make(array, 16)
+		for k := range zero {
+			zero[k] = uint8(0)
+		}
+		fail := func(msg string) value { return tuple{zero, i.newErr(msg)} }
+		hexv := func(c byte) (byte, bool) {
+			switch {
+			case c >= '0' && c <= '9':
+				return c - '0', true
+			case c >= 'a' && c <= 'f':
+				return c - 'a' + 10, true
+			case c >= 'A' && c <= 'F':
+				return c - 'A' + 10, true
+			}
+			return 0, false
+		}
+		out := make(array, 16)
+		switch len(s) {
+		case 36:
+		case 36 + 9:
+			if strings.ToLower(s[:9]) != "urn:uuid:" {
+				return fail(fmt.Sprintf("invalid urn prefix: %q", s[:9]))
+			}
+			s = s[9:]
+		case 36 + 2:
+			s = s[1:]
+		case 32:
+			for k := 0; k < 16; k++ {
+				h, ok1 := hexv(s[2*k])
+				l, ok2 := hexv(s[2*k+1])
+				if !ok1 || !ok2 {
+					return fail("invalid UUID format")
+				}
+				out[k] = uint8(h<<4 | l)
+			}
+			return tuple{out, iface{}}
+		default:
+			return fail(fmt.Sprintf("invalid UUID length: %d", len(s)))
+		}
+		if s[8] != '-' || s[13] != '-' || s[18] != '-' || s[23] != '-' {
+			return fail("invalid UUID format")
+		}
+		for k, x := range []int{0, 2, 4, 6, 9, 11, 14, 16, 19, 21, 24, 26, 28, 30, 32, 34} {
+			h, ok1 := hexv(s[x])
+			l, ok2 := hexv(s[x+1])
+			if !ok1 || !ok2 {
+				return fail("invalid UUID format")
+			}
+			out[k] = uint8(h<<4 | l)
+		}
+		return tuple{out, iface{}}
 	})
 	reg("(github.com/google/uuid.UUID).String", func(i *interpreter, fr *frame, args []value) value {
 		a := args[0].(array)
